@@ -3,73 +3,28 @@
  "id": "SCAN.punct",
  "file": "scan.c", "function": "scankind", "also_functions": ["op2", "op3", "op4"],
  "properties": {"C13": "contract", "C19": "safety"},
- "mode": "dfcc", "enforce": "scankind/scankind_contract",
+ "mode": "harness", "post_macro": "POST_PUNCT",
  "replace_calls": {"nextchar": "nextchar_spec", "stringlit": "stub_stringlit", "charconst": "stub_charconst",
                    "ident": "stub_ident", "number": "stub_number", "comment": "stub_comment"},
  "kind": "proof-const-unwind",
  "bound": "a punctuator is at most 4 characters + 1 of look-ahead: the window is 6 symbolic logical characters (any bytes, any shorter file), each preceded by 0 or 1 backslash-newline pair; blank-skipping loop of scankind unwound twice (not entered)",
- "unwindset": ["scankind_wrapped_for_contract_checking.0:2"],
+ "unwindset": ["scankind.0:2"],
  "stubs": ["base.c", "ghost_stdio.c"],
  "cbmc_flags": ["--drop-unused-functions"],
  "timeout": 200,
- "expects": ["postcondition", "assigns"],
+ "expects": ["assertion_verif"],
  "assumes": ["nextchar is taken by its stand-in nextchar_spec (scan_common.h), which SCAN.nextchar proves the real nextchar refines",
+             "harness mode (PRE assumed, POST asserted around the real call): under DFCC the same unit took 124 s (write-set instrumentation of every assignment); the frame is stated by POST clauses on the scanner fields and an arbitrary stream byte instead of an assigns clause",
              "comment() returns false and changes nothing where no comment starts (SCAN.comment)",
              "inputs that start with one of the digraph spellings <: :> <% %> %: are excluded here and stated in SCAN.punct.digraph (finding: cproc does not implement C11 6.4.6p3 digraphs)",
              "ungetc may be applied twice in a row (glibc and musl allow it; ISO C guarantees one byte): scankind needs depth 2 on `..\\\\x`"]
 }
 */
-#define GS_LMAX 6
-#define GS_KMAX 1
-#define GS_SPL 4
-#include "scan_common.h"
-#include "scan_leafstubs.h"
+#define PUNCT_SELECT (!lex_starts_digraph(g_L[0], g_L[1]))
+#define PUNCT_CANARY (g_L[0] == '<' && g_L[1] == '<' && g_L[2] == '=' && g_k[1] == 1)
+#include "punct_common.h"
 
-bool g_saw0;
-size_t g_loc_line0, g_loc_col0;
-
-#define L0 g_L[0]
-#define L1 g_L[1]
-#define L2 g_L[2]
-#define L3 g_L[3]
-#define PLEN lex_punct_len(L0, L1, L2, L3)
-
-/* scan() calls scankind(scanner, &t->loc) with the spelling buffer idle and the scanner standing on the first
-   character not yet tokenised */
-#define PRE(X) \
-	X(s != 0 && loc != 0 && s->file == ghost_file()) \
-	X(g_in_n <= G_IN_MAX && g_m <= GS_LMAX && gs_canonical()) \
-	X(!s->usebuf && s->buf.len == 0 && BUF_OK(&s->buf)) \
-	X(AT(s, 0)) \
-	X(g_saw0 == s->sawspace && g_loc_line0 == s->loc.line && g_loc_col0 == s->loc.col) \
-	X(g_leaf_calls == 0 && g_unget_max == 0) \
-	/* this unit: a punctuator starts here (6.4.6), not spelled as a digraph */ \
-	X(lex_class(L0, L1, L2) == LEX_C_PUNCT && !lex_starts_digraph(L0, L1))
-
-#define POST(X) \
-	/* 6.4p4 maximal munch: the LONGEST punctuator that is a prefix of the input */ \
-	X(RET == lex_punct_kind(L0, L1, L2, L3)) \
-	/* exactly its characters were consumed: the scanner stands on the character after it (one of look-ahead) */ \
-	X(s->chr == g_L[PLEN]) \
-	X(AT_LOOSE(s, PLEN)) \
-	/* a punctuator has no collected spelling, skips no white space, enters no literal/identifier/number scanner */ \
-	X(!s->usebuf && s->buf.len == 0) \
-	X(s->sawspace == g_saw0) \
-	X(g_leaf_calls == 0) \
-	/* C11: the token's location is where its first character stands */ \
-	X(loc->line == g_loc_line0 && loc->col == g_loc_col0) \
-	/* pushback depth needed from stdio */ \
-	X(g_unget_max <= 2) \
-	CANARY(X, !(L0 == '<' && L1 == '<' && L2 == '=' && g_k[1] == 1))
-
-static int scankind_contract(struct scanner *s, struct location *loc)
-REQUIRES(PRE)
-__CPROVER_assigns(*loc, s->chr, s->usebuf, s->sawspace, s->loc, s->buf.str, s->buf.len, s->buf.cap,
-                  g_in_pos, g_unget_depth, g_unget_max, g_getc_calls, g_comment_calls)
-__CPROVER_assigns(s->buf.str != 0: __CPROVER_object_whole(s->buf.str))
-__CPROVER_frees(s->buf.str)
-ENSURES(POST);
-
+/* (the harness is in the unit file itself: the runner collects the IN() names from here for the native replay) */
 void
 harness(void)
 {
@@ -93,7 +48,10 @@ harness(void)
 	g_col0 = in_col0;
 	gs_build(in_m);
 	__CPROVER_assume(gs_canonical());
-	s = gs_scanner_at0(in_saw, in_havebuf);
-	g_saw0 = s->sawspace; g_loc_line0 = s->loc.line; g_loc_col0 = s->loc.col;
-	CALLR(int, PRE, POST, scankind(s, loc));
+	s = gs_scanner_at0(in_saw, in_havebuf, false, in_line0, in_col0);
+	g_saw0 = s->sawspace; g_loc_line0 = s->loc.line; g_loc_col0 = s->loc.col; g_file0 = s->loc.file; g_n0 = g_in_n;
+	ING(size_t, g_j);
+	__CPROVER_assume(g_j < G_IN_MAX);
+	g_inj = g_in[g_j];
+	HCALLR(int, PRE_PUNCT, POST_PUNCT, scankind(s, loc));
 }
